@@ -182,6 +182,61 @@ def run(ctx):
            'addon "summary" records are appended to ctuInfo for the whole-program stage' if appends else
            'addon summaries are not accumulated for the whole-program stage', where)
     wp = F.one('CppCheck::executeAddonsWholeProgram')
-    calls = [c for c in wp['calls'] if c['f'].startswith('CppCheck::executeAddons(')]
-    ctx.ob('R34.3', 'whole-program-call', len(calls) >= 2, 'executeAddonsWholeProgram runs the addons on the ctu-info for both storage modes (%d calls)' % len(calls),
-           '%s:%d' % (wp['file'], wp['line']))
+    # every way through executeAddonsWholeProgram other than the "no addon configured" return runs the addons on the summaries
+    from .common import paths as _p
+    wb = F.body(wp)['body']
+
+    def _gen(n):
+        if n.get('k') == 'CXXMemberCallExpr' and n.get('fn') == 'CppCheck::executeAddons':
+            return ('ran',)
+        return ()
+
+    def _cond(n, truth):
+        n0 = strip(n)
+        if n0 is not None and n0.get('k') == 'CXXMemberCallExpr' and (n0.get('fn') or '').endswith('::empty') and any(y.get('n') == 'Settings::addons' for y in walk(n0)):
+            return (('no-addons', truth),)
+        return ()
+    def _no_handlers(n):
+        """copy of the tree with every try statement replaced by its try block: a handler is entered only after the guarded call was made"""
+        if isinstance(n, dict):
+            if n.get('k') == 'CXXTryStmt' and n.get('c'):
+                return _no_handlers(n['c'][0])
+            return {k_: _no_handlers(v_) for k_, v_ in n.items()}
+        if isinstance(n, list):
+            return [_no_handlers(v_) for v_ in n]
+        return n
+    rr = _p.analyse(_no_handlers(wb), gen=_gen, cond=_cond)
+    exits = [(k_, n_, st_) for k_, n_, st_ in rr.exits if k_ in ('return', 'end') and ('no-addons', True) not in st_]
+    ok = bool(exits) and all('ran' in st_ for _, _, st_ in exits)
+    ctx.ob('R34.3', 'whole-program-call', ok, 'executeAddonsWholeProgram runs the addons on the collected summaries on every path (%d exits) except the no-addon return' % len(exits)
+           if ok else 'executeAddonsWholeProgram has a path that returns without running the addons on the collected summaries', '%s:%d' % (wp['file'], wp['line']))
+    # R34.7: the per-file .ctu-info files in the build dir are the only store of the summaries of files that are not re-analysed: they must not be deleted
+    ctx.rule('R34.7', 'the whole-program stage deletes only its own temporary file, never the per-file ctu-info files of the build dir')
+    tainted = set()
+    changed = True
+
+    def derives(e):
+        return any((y.get('k') == 'CallExpr' and y.get('fn') in ('getCtuInfoFileName', 'getDumpFileName')) or
+                   (y.get('k') == 'DeclRefExpr' and y.get('di') in tainted) for y in walk(e))
+    while changed:
+        changed = False
+        for x in walk(wb):
+            if x.get('k') == 'VarDecl' and x.get('init') is not None and x['di'] not in tainted and derives(x['init']):
+                tainted.add(x['di'])
+                changed = True
+            if x.get('k') == 'CXXMemberCallExpr' and (x.get('fn') or '').split('::')[-1] in ('push_back', 'emplace_back', 'insert') and any(derives(a) for a in call_args(x)):
+                for y in walk(x['c'][0]):
+                    if y.get('k') == 'DeclRefExpr' and y.get('dk') == 'Var' and y['di'] not in tainted:
+                        tainted.add(y['di'])
+                        changed = True
+            if x.get('k') == 'CXXForRangeStmt' and x.get('var') is not None and x.get('range') is not None and x['var'].get('di') not in tainted and derives(x['range']):
+                tainted.add(x['var']['di'])
+                changed = True
+    dels = [x for x in walk(wb) if x.get('k') == 'CXXMemberCallExpr' and (x.get('fn') or '').endswith('FilesDeleter::addFile')]
+    ctx.floor('R34.7 FilesDeleter::addFile calls in executeAddonsWholeProgram', len(dels), 1)
+    for i, x in enumerate(dels):
+        bad = any(derives(a) for a in call_args(x))
+        ctx.ob('R34.7', 'deleted-file#%d' % i, not bad, 'the file scheduled for deletion is the stage\'s own temporary file' if not bad else
+               'executeAddonsWholeProgram schedules a per-file ctu-info file (getCtuInfoFileName(getDumpFileName(..)), kept in the build dir) for deletion at line %s: a later run that '
+               'takes the file from the cache does not re-run the addon, so its summary is gone and the whole-program addon findings for it disappear' % x['l'],
+               '%s:%s' % (wp['file'], x['l']))
